@@ -25,6 +25,14 @@ CHECKS = {
             "trusted: z3, substrate ('%.11f' modelled as correctly rounded; validated by trace replay), CPython; ezodf cell typing, ConfigParser and dateutil's text parsing are outside the encoding"),
     "C12": ("bounded symbolic execution of the real parse_ods and constructors under injected faults: numeric fault values quantified by the solver (every v <= -1e-11, zero where non-zero is required, received > sent, both fees), discrete faults at every field position, and every sequence of 5-7 (thorough 8) sheet rows over 8 row kinds explored along the parser's own decisions against an independent well-formedness oracle; exhaustive within the bounds",
             "trusted: z3, substrate (validated by trace replay); malformed .ini, command-line conflicts, exit status and 'no report written' are process-level facts without symbolic input and are outside the claim"),
+    "C13": ("bounded symbolic execution of compute_tax for two assets (one shared AccountingEngine, colliding sheet rows) followed by the real rp2_full_report generator on real ezodf and the real templates; every _fill_cell call is recorded with its symbolic value and compared cell by cell: every transaction of the window once and time-sorted with running sums and sold %, every fraction once with amount, proceeds, cost basis, gain, long/short and k/n labels, balances with per-holder totals, average price, yearly lines on the asset sheet and on the Summary, Legend method and filter cells; symbolic amounts, prices, instants, from/to dates; exhaustive within the bounds",
+            "trusted: z3, substrate (validated by trace replay incl. real ezodf writing), CPython; float() conversion and the .ods bytes only run in the concrete replay; reference values are ComputedData objects (C01-C10) and the input variables"),
+    "C14": ("bounded symbolic execution of compute_tax for two assets followed by the real tax_report_us / tax_report_ie generators: for each of the 14 subject types (6 out, 7 income, transfer with fee) every fraction must be written on exactly one row of the sheet the property assigns to its type, with dates, proceeds, cost basis, gain, LONG/SHORT and labels equal to the computed values, no cell written twice when both assets share a sheet, and the document's final sheet list equal to the sheets that received rows; symbolic amounts, prices, instants, from/to dates; exhaustive within the bounds",
+            "trusted: z3, substrate (validated by trace replay), CPython; the type->sheet table is written from the property text"),
+    "C16": ("bounded symbolic execution of compute_tax + every generator the country configures (called as rp2_main calls them) for us/generic/es/ie/jp x every accepted method x every shipped language and the country's default language x {none, from, to, from+to} with symbolic filter dates (instants concrete, spanning two years, so that mid-year, empty and year-end windows are all decided by the solver) and symbolic amounts: no path may end in an exception other than the documented JP from+to refusal; exhaustive within the bounds",
+            "trusted: z3, substrate (validated by trace replay), CPython; argparse, exit status and files on disk are outside the claim"),
+    "C19": ("same exploration and record as C13: every recorded HYPERLINK formula is parsed (sheet and row are concrete parts of the structured string) and must lead to the In-Out row on which that very transaction was written, carry no link when the date filter hides the transaction (which rows are hidden is decided by the solver), and every Summary line must link to the first detail row of that asset-year; exhaustive within the bounds",
+            "trusted: z3, substrate (validated by trace replay), CPython"),
 }
 NA = {
     "C18": "about imports and OS-level effects (sockets, processes, files); every relevant input is concrete, so there is nothing for a solver to quantify over - the deciding step would be an import scan / audit hook, which is outside this technique family",
@@ -45,7 +53,7 @@ def main():
         "engines": [{"name": "symx", "path": "symx/", "serves_properties": list(CHECKS), "kind_free_text": "custom symbolic executor for the real rp2 Python modules: proxy value types (Decimal/datetime/date/float/str) over integer polynomials, eager branch decisions with z3 (cvc5 as second opinion), DFS by re-execution, concrete replay on the uninstrumented code"}],
         "checks": checks,
         "not_applicable": na,
-        "notes": "fix: commits in /repo (b9ef9cd, 663eb25, df34426, df33c02) repair defects found by these checks; see known_findings.json and DESIGN.md",
+        "notes": "fix: commits in /repo (b9ef9cd, 663eb25, df34426, df33c02, 5bbebf1, a192f0f, a566a84) repair defects found by these checks; see known_findings.json and DESIGN.md",
     }
     with open("MANIFEST.json", "w", encoding="utf-8") as f:
         json.dump(m, f, indent=1)
